@@ -116,11 +116,13 @@ def choose(n, weights=None, tag=None):
     return _current.choose(n, weights, tag)
 
 
-def explore(fn, *, bound=None, max_executions=None, order="dfs"):
+def explore(fn, *, bound=None, max_executions=None, order="dfs", bound_tags=None):
     """Enumerate executions of ``fn()``.
 
     Yields ``(execution, result)`` where result is whatever ``fn`` returned (fn must
-    catch what it wants to observe).  ``bound``: max number of non-default choices.
+    catch what it wants to observe).  ``bound``: max number of non-default choices
+    (counted only at choice points whose tag is in ``bound_tags`` if that is given; the
+    other choice points are always explored completely).
     Zero-weight alternatives are never explored.  Returns normally when the space is
     exhausted; sets ``explore.capped`` attribute on the generator's stats object.
     """
@@ -148,13 +150,14 @@ def explore(fn, *, bound=None, max_executions=None, order="dfs"):
         new = []
         dev = 0
         for i, p in enumerate(ex.points):
+            counted = bound_tags is None or p.tag in bound_tags
             if i >= len(prefix):
-                if bound is None or dev + 1 <= bound:
+                if bound is None or not counted or dev + 1 <= bound:
                     for alt in range(p.choice + 1, p.n):
                         if p.weights is not None and p.weights[alt] == 0:
                             continue
                         new.append((choices[:i] + [alt], sig[: i + 1]))
-            if p.choice != 0:
+            if p.choice != 0 and counted:
                 dev += 1
         stack.extend(reversed(new))
     stats.done = True
